@@ -22,7 +22,7 @@ def pub(I, obj, attr):
     try:
         return get_public(I, obj, attr)
     except _RaisedExc as e:
-        return e.raised if hasattr(e, 'raised') else Raised('AttributeError')
+        return e.raised
 
 
 def built(v, what):
@@ -251,10 +251,15 @@ def verify_fit(run, repo, ci, I, r, species, sols, dname, label, stage, holders=
                   sample='H_dft + adjustment - H_exp == (y - M x)[%d]  for %s%s' % (i, label, stage))
         n += 1
     # a species that was given this References object BEFORE the fit is adjusted with the offsets of THIS fit
-    for sp, comp, T in holders:
+    for hd in holders:
+        sp, comp, T = hd['sp'], hd['comp'], hd['T']
         o2, f2 = repo.find_method(repo.cls(SM), 'get_HoRT')
         with_refs = I.call_method(sp, 'get_HoRT', [], {'T': T})
-        without = I.call_method(sp, 'get_HoRT', [], {'T': T, 'use_references': False})
+        if 'without' not in hd:
+            # what the species is without references does not involve the References object: evaluated once per case
+            # (that switching the references off leaves no offset behind is FWD.switch above)
+            hd['without'] = I.call_method(sp, 'get_HoRT', [], {'T': T, 'use_references': False})
+        without = hd['without']
         want = C(0)
         for j, k_ in enumerate(names):
             if k_ in comp:
@@ -493,9 +498,9 @@ def check(run, repo):
                       'references change %s of a species by %s' % (q[4:], show(with_refs - without, 160) if isinstance(
                           with_refs, Rat) and isinstance(without, Rat) else show(with_refs, 120)), o3.module, f3)
 
-
     # ---- fitting ---------------------------------------------------------------
     n_fit = 0
+    stages = []         # fits the rule set up (construction or change of the reference set + refit)
     owner, fn = repo.find_method(ci, 'fit_HoRT_offset')
     fit_cases = [(comps, dname, False, None)
                  for dname in ('elements', 'groups')
@@ -541,6 +546,7 @@ def check(run, repo):
             label += ' T_ref differing by 0.01 K'
         if concrete:
             label += ' ' + concrete[2]
+        stages.append(label)
         r = I.construct(ci, [], kw_, name='refs')
         if isinstance(r, Raised) or 'x' not in sols:
             run.fail('REF.fit', 'References.fit_HoRT_offset', label, 'constructing References with reference species '
@@ -559,7 +565,7 @@ def check(run, repo):
         # has a descriptor that comes and goes with the appended reference (D) and one the set never knows (Q).
         tcomp = {k: D.sym('t' + k) for k in ('A', 'B', 'D', 'Q')}
         holder = make_species(I, repo, 'target', r, DictV(tcomp), dname)
-        holders = [(holder, tcomp, D.sym('T'))]
+        holders = [{'sp': holder, 'comp': tcomp, 'T': D.sym('T')}]
         n_fit += verify_fit(run, repo, ci, I, r, species, sols, dname, label, '', holders)
         if vary_T:
             continue
@@ -571,8 +577,9 @@ def check(run, repo):
         nf0 = len(run.findings)
 
         def step(stage, method, kw_m, added=(), removed=None):
-            """one change of the reference set + refit; False when the history of this case ends here: the set is
-            not what the rule's list says (findings were reported), what follows would only repeat that"""
+            """one change of the reference set + refit.  Not run once the history of this case has produced findings:
+            the set is then not what the rule's list says and what follows would only repeat that"""
+            stages.append(label + stage)
             if len(run.findings) > nf0:
                 return 0
             I.call_method(r, method, [], kw_m)
@@ -600,7 +607,8 @@ def check(run, repo):
             more = [ref_species(I, repo, 'refY', ('A',), Tr, dname, name=pname('refY')),
                     ref_species(I, repo, 'refZ', ('B', 'A', 'E'), Tr, dname, name=pname('refZ'))]
             n_fit += step(' extend+refit', 'extend', {'seq': ListV([s_.obj for s_ in more])}, more)
-    run.floor('fit instances', n_fit, 200)
+    # 43 on this tree; without pop/remove/extend in the class 24
+    run.floor('fits of a reference set (construction, change + refit)', len(stages), 24)
     run.extra['fit_instances'] = n_fit
 
 
